@@ -2,7 +2,7 @@
    QueryHandler.async_response / _QueryResponse (query_handler.py), statement by statement.
    The per-ServiceInfo record memo is not modelled: the registry holds values and records are
    recomputed; stale memos would show up in the correspondence check (C03 "after update"). *)
-From ZC Require Import Model.Base Model.PyRec Model.Dict Model.Re Model.Cache Gen.Const Gen.Extra Gen.DnsPure.
+From ZC Require Import Model.Base Model.PyRec Model.Dict Model.Re Model.Cache Gen.Const Gen.Sites Gen.Extra Gen.DnsPure.
 
 Record svc := {
   s_type : text; s_name : text; s_server : text;
@@ -189,8 +189,10 @@ Definition sadd (s : list pyrec) (r : pyrec) : list pyrec := if existsb (fun x =
 
 Definition has_mcast_within_one_quarter_ttl (c : cache) (now : Z) (r : pyrec) : bool :=
   match async_get_unique c r with Some e => DNSRecord_is_recent e now | None => false end.
-Definition has_mcast_record_in_last_second (c : cache) (now : Z) (r : pyrec) : bool :=
-  match async_get_unique c r with Some e => now - DNSRecord_created e <? C_ONE_SECOND | None => false end.
+Definition has_mcast_record_in_last_second :=
+  Eval cbv beta iota delta [sop_apply site_resp_last_second] in
+  fun (c : cache) (now : Z) (r : pyrec) =>
+  match async_get_unique c r with Some e => sop_apply site_resp_last_second (now - DNSRecord_created e) C_ONE_SECOND | None => false end.
 
 Definition respond_immediate (t : Z) : bool := existsb (Z.eqb t) C_RESPOND_IMMEDIATE_TYPES.
 
